@@ -375,8 +375,12 @@ def run_batch(cases, out, stats, side=False):
                 stats["cells"] += len(l5.final_cells(ms["writes"]))
             if mism:
                 stats["mismatch"] += 1
-        if not side:
-            exp_names = names or ["Asset", "Asset - Exchange", "Input"]
+        if not side and names is None:
+            side_skip = True      # the translated sheet names come from the model; without them the oracle cannot locate the tables
+        else:
+            side_skip = False
+        if not side and not side_skip:
+            exp_names = names
             viol = judge(m, r, exp_names)
             for text, tags in viol:
                 tg = set(tags) | base_tags
